@@ -216,6 +216,14 @@ impl<VM: VMBinding> MonotonePageResource<VM> {
     /// # Safety
     /// TODO: I am not sure why this is unsafe.
     pub unsafe fn reset(&self) {
+        #[cfg(feature = "mmtk_verif")]
+        crate::verif::emit(
+            crate::verif::EV_PR_RESET,
+            &self.common as *const _ as usize as u64,
+            0,
+            0,
+            0,
+        );
         let mut guard = self.sync.lock().unwrap();
         self.common().accounting.reset();
         self.release_pages(&mut guard);
@@ -262,6 +270,14 @@ impl<VM: VMBinding> MonotonePageResource<VM> {
      }*/
 
     pub fn reset_cursor(&self, top: Address) {
+        #[cfg(feature = "mmtk_verif")]
+        crate::verif::emit(
+            crate::verif::EV_PR_RESET,
+            &self.common as *const _ as usize as u64,
+            top.as_usize() as u64,
+            1,
+            0,
+        );
         if self.common.contiguous {
             let mut guard = self.sync.lock().unwrap();
             let cursor = top.align_up(crate::util::constants::BYTES_IN_PAGE);
